@@ -376,6 +376,15 @@ def run_property(pid, tier, seed, replay=None):
         "trace_chunks": len(all_chunks), "profiles": profiles,
         "exhaustive": False,
     }
+    nkern = sum(r["done"][5] for r in all_results if r["done"] and len(r["done"]) > 5)
+    drifts = [(r["chunk"], d) for r in all_results for d in r.get("drifts", [])]
+    if nkern:
+        # conformance of the implementation-shaped kernels of the specification with the code (not a property verdict)
+        cov["kernel_model_comparisons"] = nkern
+        cov["kernel_model_drift"] = len(drifts)
+    for ch, d in drifts[:5]:
+        log("MODEL-DRIFT: %s line %s (%s %s): the code's representation differs from the specification's kernel model "
+            "(no property is violated by that; the kernel model needs to be brought back in line)" % (os.path.basename(ch), d[1], d[2], d[3]))
     if hunt_stats:
         cov["screened_against_naive_oracle"] = sum(h.get("screened", 0) for h in hunt_stats)
         cov["forwarded_as_suspicious"] = sum(h.get("suspicious", 0) for h in hunt_stats)
